@@ -1,6 +1,7 @@
 #![allow(dead_code)]
 //! tvh — the runtime-monitoring harness for Keats/tera. One sub-command per property; see /verif/DESIGN.md.
 mod core;
+mod model;
 mod props;
 mod values;
 
